@@ -305,6 +305,16 @@ func (dsc *dataStoreCommand) setDirty() {
 	dsc.ds.data.dirty = true
 }
 
+// marks the database dirty and gives the key a new version, so that a WATCH
+// on it notices a change that was made in place (same key object)
+func (dsc *dataStoreCommand) setModified(keyName string) {
+	dsc.setDirty()
+	if sk, exists := dsc.ds.getStoreKey(keyName); exists {
+		dsc.ds.dataObjectNumber++
+		sk.id = dsc.ds.dataObjectNumber
+	}
+}
+
 func (dsc *dataStoreCommand) getKeyObject(keyName string) (sk *storeKey, exists bool) {
 	dsc.lock()
 	defer dsc.unlock()
@@ -393,7 +403,7 @@ func (dsc *dataStoreCommand) getKeySetExpiration(keyName string, expiration time
 		if strBytes != nil {
 			val = string(strBytes)
 			sk.expiresAt = expiration
-			dsc.setDirty()
+			dsc.setModified(keyName)
 		} else {
 			exists = VALUE_WRONG_TYPE
 		}
@@ -801,7 +811,7 @@ func (dsc *dataStoreCommand) del(keyNames []string, reclaim bool) (output respVa
 				dsc.ds.data.remove(keyName)
 			} else {
 				sk.expiresAt = minTime
-				dsc.setDirty()
+				dsc.setModified(keyName)
 			}
 		} else if reclaim {
 			// remove expired now (if it exists)
@@ -956,7 +966,7 @@ func (dsc *dataStoreCommand) expire(keyName string, expiration time.Time, nx, xx
 	}
 
 	sk.expiresAt = expiration
-	dsc.setDirty()
+	dsc.setModified(keyName)
 	output.data = respInt(1)
 	return
 }
@@ -988,7 +998,7 @@ func (dsc *dataStoreCommand) persist(keyName string) (output respValue) {
 		return
 	}
 	sk.expiresAt = maxTime
-	dsc.setDirty()
+	dsc.setModified(keyName)
 	output.data = respInt(1)
 	return
 }
@@ -1160,7 +1170,7 @@ func (dsc *dataStoreCommand) lpushUnlocked(keyName string, list *storeList, elem
 	}
 	list.head = &item
 	list.count++
-	dsc.setDirty()
+	dsc.setModified(keyName)
 }
 
 func (dsc *dataStoreCommand) lpush(keyName string, values [][]byte) (output respValue) {
@@ -1228,7 +1238,7 @@ func (dsc *dataStoreCommand) lpopUnlocked(keyName string, list *storeList, item 
 		dsc.ds.data.remove(keyName)
 	}
 
-	dsc.setDirty()
+	dsc.setModified(keyName)
 }
 
 func (dsc *dataStoreCommand) lpop(keyName string, count int) (values [][]byte, err *respErrorString) {
@@ -1265,7 +1275,7 @@ func (dsc *dataStoreCommand) rpushUnlocked(keyName string, list *storeList, elem
 	}
 	list.tail = &item
 	list.count++
-	dsc.setDirty()
+	dsc.setModified(keyName)
 }
 
 func (dsc *dataStoreCommand) rpush(keyName string, values [][]byte) (output respValue) {
@@ -1333,7 +1343,7 @@ func (dsc *dataStoreCommand) rpopUnlocked(keyName string, list *storeList, item 
 		dsc.ds.data.remove(keyName)
 	}
 
-	dsc.setDirty()
+	dsc.setModified(keyName)
 }
 
 func (dsc *dataStoreCommand) rpop(keyName string, count int) (values [][]byte, err *respErrorString) {
@@ -1469,6 +1479,7 @@ func (dsc *dataStoreCommand) linsert(keyName string, before bool, pivot, element
 	} else {
 		dsc.linsertAfterUnlocked(list, pivotItem, []byte(element))
 	}
+	dsc.setModified(keyName)
 
 	output.data = respInt(list.count)
 	return
@@ -1717,7 +1728,7 @@ func (dsc *dataStoreCommand) removeUnlocked(keyName string, list *storeList, ite
 	item.next = nil
 	item.prev = nil
 
-	dsc.setDirty()
+	dsc.setModified(keyName)
 }
 
 func (dsc *dataStoreCommand) lremove(keyName string, element string, count int) (removed int, err *respErrorString) {
@@ -1814,7 +1825,7 @@ func (dsc *dataStoreCommand) lset(keyName string, element string, count int) (ou
 	}
 
 	item.element = []byte(element)
-	dsc.setDirty()
+	dsc.setModified(keyName)
 	output.data = rstrOK
 	return
 }
@@ -1979,7 +1990,7 @@ func (dsc *dataStoreCommand) setHashTableWorker(keyName string, fieldNames, valu
 			added++
 		}
 		m.store(fieldName, values[idx])
-		dsc.setDirty()
+		dsc.setModified(keyName)
 	}
 	return
 }
@@ -2004,7 +2015,7 @@ func (dsc *dataStoreCommand) deleteHashTableFields(keyName string, fieldNames []
 		for _, fieldName := range fieldNames {
 			if m.remove(fieldName) {
 				removed++
-				dsc.setDirty()
+				dsc.setModified(keyName)
 
 				if m.count == 0 {
 					dsc.ds.data.remove(keyName)
@@ -2060,7 +2071,7 @@ func (dsc *dataStoreCommand) fieldAddInt(keyName, fieldName string, delta int64)
 		ve = VALUE_DOESNT_EXIST
 	}
 	m.store(fieldName, fmt.Sprintf("%d", value))
-	dsc.setDirty()
+	dsc.setModified(keyName)
 
 	return
 }
@@ -2115,7 +2126,7 @@ func (dsc *dataStoreCommand) fieldAddFloat(keyName, fieldName string, delta floa
 	}
 
 	m.store(fieldName, strconv.FormatFloat(value, 'f', -1, 64))
-	dsc.setDirty()
+	dsc.setModified(keyName)
 	return
 }
 
@@ -2399,7 +2410,7 @@ func (dsc *dataStoreCommand) setAddWorkerUnlocked(keyName string, memberNames []
 			added++
 		}
 		m.store(memberName, struct{}{})
-		dsc.setDirty()
+		dsc.setModified(keyName)
 	}
 	return
 }
@@ -2424,7 +2435,7 @@ func (dsc *dataStoreCommand) deleteSetMembers(keyName string, memberNames []stri
 		for _, memberName := range memberNames {
 			if m.remove(memberName) {
 				removed++
-				dsc.setDirty()
+				dsc.setModified(keyName)
 
 				if m.count == 0 {
 					dsc.ds.data.remove(keyName)
@@ -2879,7 +2890,7 @@ func (dsc *dataStoreCommand) setMove(source, destination, memberName string) (ou
 	}
 
 	ss.remove(memberName)
-	dsc.setDirty()
+	dsc.setModified(source)
 
 	output.data = respInt(added)
 	return
@@ -2905,7 +2916,7 @@ func (dsc *dataStoreCommand) setRemove(keyName string, members []string) (output
 	for _, member := range members {
 		if m.remove(member) {
 			removals++
-			dsc.setDirty()
+			dsc.setModified(keyName)
 		}
 	}
 
